@@ -279,7 +279,7 @@ func runC14(c *Ctx) {
 	}
 
 	// ---------------------------------------------------------------- R3
-	c.rule("R3", "the helper cannot get stuck: result handed over in a select with done (closed by defer); fixed 5 s timeout context", 4)
+	c.rule("R3", "the helper cannot get stuck: result handed over in a select with done (closed by defer); fixed 5 s timeout context, which every exchange-path function below passes on", 10)
 	{
 		var doneID ssa.Value
 		eachInstr(f, func(in ssa.Instruction) {
@@ -331,6 +331,10 @@ func runC14(c *Ctx) {
 			}
 		}
 		c.check(ctxOK, "helper-timeout", helper.Pos(), "upstream exchange under WithTimeout(Background, 5 s)", "the helper's exchange does not run under the fixed 5 s timeout context")
+		// and nothing below the helper detaches from that context: every exchange-path function of the upstream packages
+		// passes its own context on (round 13: the TCP retry of a truncated UDP reply ran under a context of its own, the
+		// helper outlived its 5 s bound)
+		checkCallerCtxPassedOn(c, p.funcsIn(relTransport, relUpstream))
 	}
 
 	// ---------------------------------------------------------------- R4
